@@ -3,6 +3,7 @@ from __future__ import annotations
 
 import itertools
 import re
+import time
 
 from vt import util
 from vt.gen import jast
@@ -14,7 +15,9 @@ LEVEL = "exploration"
 TECHNIQUE = "executable binding specification checked over an exhaustively enumerated space of signatures x call shapes (template-side and Python-side)"
 RULE = ("all macro signatures with 0-4 parameters, 0-3 trailing defaults (constant / earlier "
         "parameter / outer variable re-assigned between definition and call), every subset of "
-        "{varargs,kwargs,caller} mentioned in the body, crossed with call shapes: 0-5 positional, "
+        "{varargs,kwargs,caller} mentioned in the body, plus the signatures in which `caller` is "
+        "DECLARED as a regular parameter at every position (first / middle / last, with or without "
+        "default, read by the body or not), crossed with call shapes: 0-5 positional, "
         "every keyword subset (<=4) of parameter names + an unknown name, *seq, **map, call blocks; "
         "each call rendered inside one compiled template per signature (selected by data) and "
         "called from Python through template.module; compared with the binding rules of the "
@@ -23,17 +26,22 @@ LEVEL_TEXT = "exhaustive within the stated bounds (quick: a deterministic 1/3 sa
 ASSUMPTIONS = [
     "macro mentioning kwargs but not caller is not invoked through a call block (caller would land in kwargs; undocumented)",
     "keys of a **map never repeat an explicit keyword",
+    "a call block never also passes `caller` by keyword/**map (rejected by design), and a macro printing kwargs is not "
+    "invoked through a call block when its declared `caller` parameter is already bound positionally",
+    "a declared `caller` parameter that the body reads always has a default (the compiler rejects the other form)",
 ]
 NSHARDS = {"quick": 16, "thorough": 16}
 BUDGET_S = {"quick": 30, "thorough": 900}
 FLOORS = {
     "quick": {"evaluations": 20000, "distinct": 10000,
               "counters": {"template_side": 10000, "python_side": 5000, "expect_typeerror": 2000,
-                           "default_used": 2000, "hostile_name_renders": 5000}},
+                           "default_used": 2000, "hostile_name_renders": 5000,
+                           "explicit_caller_calls": 8000, "explicit_caller_not_last_read": 1400}},
     "thorough": {"evaluations": 150000, "distinct": 60000,
                  "counters": {"template_side": 100000, "python_side": 30000,
                               "expect_typeerror": 20000, "default_used": 20000,
-                              "hostile_name_renders": 50000}},
+                              "hostile_name_renders": 50000,
+                              "explicit_caller_calls": 8000, "explicit_caller_not_last_read": 1400}},
 }
 
 
@@ -47,11 +55,47 @@ def signatures():
     return out
 
 
+def cpos_of(sig):
+    """Index of the parameter that is DECLARED under the special name `caller`, or None."""
+    return sig[4] if len(sig) > 4 else None
+
+
+def pnames_of(sig):
+    cpos = cpos_of(sig)
+    return ["caller" if i == cpos else f"p{i + 1}" for i in range(sig[0])]
+
+
+def explicit_caller_signatures():
+    """Signatures whose parameter list declares `caller` itself (any position).  It is then an
+    ordinary parameter: bound positionally in order, by keyword (a call block passes its body
+    as the `caller` keyword) or from its default.  The default kind rotates with the shape."""
+    out = []
+    for n in range(1, 5):
+        for k in range(0, min(3, n) + 1):
+            for cpos in range(n):
+                for mention in itertools.product([False, True], repeat=3):
+                    if mention[2] and cpos < n - k:
+                        continue  # body reads a declared caller without default: rejected at compile time
+                    out.append((n, k, (n + k + cpos) % 3 if k else 0, mention, cpos))
+    return out
+
+
+def caller_param_print():
+    """Prints a declared `caller` parameter: plain values as they are, a macro by calling it."""
+    show = [["out", F(N("caller"), "default", C("U"))]]
+    return ["if", [[["test", N("caller"), "undefined", [], False], show],
+                   [["test", N("caller"), "none", [], False], show],
+                   [["test", N("caller"), "number", [], False], show]],
+            [["out", ["call", N("caller"), [], []]]]]
+
+
 def make_macro(sig):
-    n, k, j, (mv, mk, mc) = sig
+    n, k, j, (mv, mk, mc) = sig[:4]
+    cpos = cpos_of(sig)
+    names = pnames_of(sig)
     params = []
     for i in range(n):
-        name = f"p{i + 1}"
+        name = names[i]
         d = None
         di = i - (n - k)
         if di >= 0:
@@ -61,7 +105,7 @@ def make_macro(sig):
                 # name exists.  Which binding is meant is undocumented: both readings are
                 # accepted (see compare), but nothing else - in particular no internal object.
                 d = N(name) if di == 0 else C(20 + di)
-            elif kind == 1 and i > 0:
+            elif kind == 1 and i > 0 and cpos != 0:
                 d = ["bin", "+", N("p1"), C(100)]  # earlier parameter, evaluated at call time
             elif kind == 2:
                 d = N("ov")                         # outer variable at call time
@@ -70,6 +114,10 @@ def make_macro(sig):
         params.append([name, d])
     body = [["text", "["]]
     for name, _ in params:
+        if name == "caller":
+            if mc:
+                body += [caller_param_print(), ["text", ","]]
+            continue
         body += [["out", F(N(name), "default", C("U"))], ["text", ","]]
     body.append(["text", "]"])
     if mv:
@@ -78,7 +126,7 @@ def make_macro(sig):
         body += [["text", "K"], ["for", ["k"], F(N("kwargs"), "sort"),
                                  [["out", N("k")], ["text", "="], ["out", ["item", N("kwargs"), N("k")]], ["text", ";"]],
                                  None, None, False]]
-    if mc:
+    if mc and cpos is None:
         body += [["text", "C"], ["if", [[["test", N("caller"), "defined", [], False],
                                          [["out", ["call", N("caller"), [], []]]]]], [["text", "-"]]]]
     return ["macro", "m", params, body]
@@ -87,13 +135,14 @@ def make_macro(sig):
 def unknown_name(sig):
     """The unknown keyword is a Python keyword for half of the signatures (such
     calls are compiled through a different code path)."""
-    n, k, j, (mv, mk, mc) = sig
+    n, k, j, (mv, mk, mc) = sig[:4]
     return "class" if (n + k + j + mv) % 2 else "zz"
 
 
 def call_shapes(sig):
-    n, k, j, (mv, mk, mc) = sig
-    pnames = [f"p{i + 1}" for i in range(n)]
+    n, k, j, (mv, mk, mc) = sig[:4]
+    cpos = cpos_of(sig)
+    pnames = pnames_of(sig)
     kwnames = pnames + ["zz"]
     shapes = []
     for npos in range(0, 6):
@@ -110,6 +159,11 @@ def call_shapes(sig):
                     for cb in (False, True):
                         if cb and mk and not mc:
                             continue
+                        if cb and cpos is not None:
+                            if "caller" in kws or (star == 2 and cpos == n - 1):
+                                continue  # call block + explicit caller keyword: rejected by design
+                            if mk and npos + (2 if star == 1 else 0) > cpos:
+                                continue  # the call block's macro object would be printed from kwargs
                         shapes.append((npos, kws, star, cb))
     return shapes
 
@@ -123,7 +177,7 @@ def call_ast(sig, shape):
     un = unknown_name(sig)
     kw = [[un if name == "zz" else name, C(None) if (i + npos) % 3 == 2 else C(30 + i)] for i, name in enumerate(kws)]
     if star == 2:
-        kw.append(["**", ["dict", [[C(f"p{n}"), C(50)]]]])
+        kw.append(["**", ["dict", [[C(pnames_of(sig)[-1]), C(50)]]]])
     if star == 3:
         kw.append(["**", ["dict", [[C(un), C(51)]]]])
     call = ["call", N("m"), args, kw]
@@ -141,14 +195,14 @@ def py_args(sig, shape):
     un = unknown_name(sig)
     kw = {(un if name == "zz" else name): (None if (i + npos) % 3 == 2 else 30 + i) for i, name in enumerate(kws)}
     if star == 2:
-        kw[f"p{n}"] = 50
+        kw[pnames_of(sig)[-1]] = 50
     if star == 3:
         kw[un] = 51
     return args, kw
 
 
 def own_default_param(sig):
-    n, k, j, _ = sig
+    n, k, j, _ = sig[:4]
     return f"p{n - k + 1}" if (k and j == 3) else None
 
 
@@ -186,6 +240,8 @@ def check_sig(ctx, sig, shapes, envs):
     hostile = HOSTILE[(sig[0] + sig[1] + sig[2]) % len(HOSTILE)]
     hsrc = rename_source(src, hostile)
     htmpl = util.capture(lambda: envs["default"].from_string(hsrc))
+    if cpos_of(sig) is not None and ctx.tier == "quick":
+        htmpl = None   # quick: the renaming probe stays with the implicit-caller signatures
     pymod = tmpls["default"].module
     for i, sh in enumerate(shapes):
         one = pre + [call_ast(sig, sh)]
@@ -210,15 +266,23 @@ def check_sig(ctx, sig, shapes, envs):
                 ctx.count("expect_other_error")
         elif "77" in mo.value or "78" in mo.value or "1" in mo.value[1:].split("]")[0].replace("10", ""):
             ctx.count("default_used")
-        case = {"sig": list(sig[:3]) + [list(sig[3])], "shape": [sh[0], list(sh[1]), sh[2], sh[3]]}
+        xc = cpos_of(sig) is not None
+        xc_hot = xc and sig[3][2] and cpos_of(sig) < sig[0] - 1
+        case = {"sig": list(sig[:3]) + [list(sig[3])] + ([cpos_of(sig)] if xc else []), "shape": [sh[0], list(sh[1]), sh[2], sh[3]]}
         for en, t in tmpls.items():
             eo = util.capture(lambda: t.render(sel=i))
             ctx.ev()
             ctx.count("template_side")
+            if xc:
+                ctx.count("explicit_caller_calls")
+            if xc_hot:
+                ctx.count("explicit_caller_not_last_read")
             bad = compare_any(alts, eo)
             if bad:
                 ctx.violation(classify(sig, sh, mo, eo), f"{bad} | {jast.ps(one)!r} env={en}", case)
-        if htmpl.ok:
+        if htmpl is None:
+            pass
+        elif htmpl.ok:
             eo = util.capture(lambda: htmpl.value.render(sel=i))
             base = util.capture(lambda: tmpls["default"].render(sel=i))
             ctx.ev()
@@ -241,6 +305,10 @@ def check_sig(ctx, sig, shapes, envs):
             eo = util.capture(lambda: str(pymod.m(*a, **kw)))
             ctx.ev()
             ctx.count("python_side")
+            if xc:
+                ctx.count("explicit_caller_calls")
+            if xc_hot:
+                ctx.count("explicit_caller_not_last_read")
             bad = compare_any(alts, eo)
             if bad:
                 ctx.violation("python:" + classify(sig, sh, mo, eo),
@@ -261,8 +329,29 @@ def compare_any(alts, eo):
     return None if any(r is None for r in res) else res[0]
 
 
+def classify_explicit_caller(sig, sh, mo, eo):
+    """Key for signatures that declare `caller`: where it stands, how this call binds it, and
+    the kind of disagreement (spec outcome -> engine outcome)."""
+    n, cpos = sig[0], cpos_of(sig)
+    npos, kws, star, cb = sh
+    eff = npos + (2 if star == 1 else 0)
+    if eff > cpos:
+        how = "positional-all" if eff >= n else "positional-partial"
+    elif "caller" in kws or (star == 2 and cpos == n - 1):
+        how = "keyword"
+    elif cb:
+        how = "callblock"
+    else:
+        how = "default"
+    sym = lambda o: "ok" if o.ok else (util.model_exc_name(o.exc) if o is mo else type(o.exc).__name__)  # noqa: E731
+    return "bind:explicit-caller:%s:%s:%s:%s->%s" % (
+        "last" if cpos == n - 1 else "not-last", "read" if sig[3][2] else "unread", how, sym(mo), sym(eo))
+
+
 def classify(sig, sh, mo, eo):
-    n, k, j, (mv, mk, mc) = sig
+    if cpos_of(sig) is not None:
+        return classify_explicit_caller(sig, sh, mo, eo)
+    n, k, j, (mv, mk, mc) = sig[:4]
     npos, kws, star, cb = sh
     parts = []
     if npos > n:
@@ -286,6 +375,11 @@ def run(ctx):
     if ctx.tier == "quick":
         # deterministic third of the signatures, rotated by seed
         sigs = [s for i, s in enumerate(sigs) if (i + ctx.seed) % 3 == 0]
+    xsigs = explicit_caller_signatures()
+    if ctx.tier == "quick":
+        # deterministic fifth of the declared-caller signatures, rotated by seed
+        xsigs = [s for i, s in enumerate(xsigs) if (i + ctx.seed) % 5 == 0]
+    sigs = sigs + xsigs
     done = 0
     for i, sig in enumerate(sigs):
         if not ctx.mine(i):
@@ -296,14 +390,16 @@ def run(ctx):
         if done == 1 and ctx.shard == 0:
             ctx.sample({"macro": jast.ps([make_macro(sig)]), "n_call_shapes": len(shapes),
                         "example_call": jast.ps([call_ast(sig, shapes[len(shapes) // 2])])})
-        if ctx.elapsed() > ctx.budget_s * 3:
-            ctx.inconc("enumeration did not finish within 3x budget")
+        # the enumeration is a fixed amount of work: bound it by the CPU time this shard used (so a
+        # heavily shared machine does not turn the run into INCONCLUSIVE), with a generous wall cap
+        if time.process_time() > ctx.budget_s * 3 or ctx.elapsed() > ctx.budget_s * 12:
+            ctx.inconc("enumeration did not finish within 3x budget (CPU) / 12x budget (wall)")
             return
     ctx.exhaustive = ctx.tier == "thorough"
     ctx.extra["signatures_enumerated"] = done
 
 
 def replay(ctx, case):
-    sig = (case["sig"][0], case["sig"][1], case["sig"][2], tuple(case["sig"][3]))
+    sig = (case["sig"][0], case["sig"][1], case["sig"][2], tuple(case["sig"][3])) + tuple(case["sig"][4:5])
     sh = (case["shape"][0], tuple(case["shape"][1]), case["shape"][2], case["shape"][3])
     check_sig(ctx, sig, [sh], util.make_envs(["default", "sandbox"]))
